@@ -110,6 +110,10 @@ func (e *Enc) encodeTop() {
 			_ = sl
 			e.assert(fmt.Sprintf("(< (sl_base %s) %s)", n, alloc0))
 		}
+		if _, st := structKey(p.Type()); st != nil {
+			f.heap = heap
+			f.assumeAllocated(n, p.Type(), 0)
+		}
 		f.vals[p] = Val{T: n}
 		f.args = append(f.args, Val{T: n})
 		e.inputs = append(e.inputs, n)
